@@ -77,11 +77,68 @@ class _Norm(ast.NodeTransformer):
         raise ExtractError('unexpected local import: %s' % ast.unparse(n))
 
 
+def _is_boolish(n):
+    if isinstance(n, (ast.BoolOp, ast.Compare)):
+        return True
+    if isinstance(n, ast.UnaryOp) and isinstance(n.op, ast.Not):
+        return True
+    return (isinstance(n, ast.Call) and not n.keywords and len(n.args) == 1 and
+            ((isinstance(n.func, ast.Name) and n.func.id in ('_any', 'any')) or
+             (isinstance(n.func, ast.Attribute) and n.func.attr == 'any')) and _is_boolish(n.args[0]))
+
+
+def inline_bool_temps(f):
+    """Inline boolean temporaries (`flag = <comparisons / and / or / not / _any(...)>` ... `if flag:`) into the tests that use them.
+    Done only when it is obviously meaning-preserving: the name is assigned exactly once in the function, is only read inside `if` tests,
+    every read comes after the assignment in the same or a nested block, and no name occurring in the expression is assigned again later.
+    Anything else is left alone (the translator then refuses the function).  In place on a COPY of the FunctionDef."""
+    stores = {}
+    for n in ast.walk(f):
+        if isinstance(n, ast.Name) and isinstance(n.ctx, ast.Store):
+            stores[n.id] = stores.get(n.id, 0) + 1
+        elif isinstance(n, ast.AugAssign) and isinstance(n.target, ast.Name):
+            stores[n.target.id] = stores.get(n.target.id, 0) + 1
+    test_reads = set()
+    for n in ast.walk(f):
+        if isinstance(n, (ast.If, ast.IfExp)):
+            for x in ast.walk(n.test):
+                if isinstance(x, ast.Name):
+                    test_reads.add(id(x))
+
+    def process(body):
+        i = 0
+        while i < len(body):
+            st = body[i]
+            if (isinstance(st, ast.Assign) and len(st.targets) == 1 and isinstance(st.targets[0], ast.Name)
+                    and _is_boolish(st.value) and stores.get(st.targets[0].id) == 1):
+                name = st.targets[0].id
+                rest = body[i + 1:]
+                reads = [x for r in rest for x in ast.walk(r) if isinstance(x, ast.Name) and x.id == name]
+                all_reads = [x for x in ast.walk(f) if isinstance(x, ast.Name) and x.id == name and isinstance(x.ctx, ast.Load)]
+                free = {x.id for x in ast.walk(st.value) if isinstance(x, ast.Name)}
+                later_stores = {x.id for r in rest for x in ast.walk(r) if isinstance(x, ast.Name) and isinstance(x.ctx, ast.Store)}
+                later_stores |= {x.target.id for r in rest for x in ast.walk(r) if isinstance(x, ast.AugAssign) and isinstance(x.target, ast.Name)}
+                if reads and len(reads) == len(all_reads) and all(id(x) in test_reads for x in reads) and not (free & later_stores):
+                    class Sub(ast.NodeTransformer):
+                        def visit_Name(self, n):
+                            return copy.deepcopy(st.value) if (n.id == name and isinstance(n.ctx, ast.Load)) else n
+                    body[i + 1:] = [Sub().visit(r) for r in rest]
+                    del body[i]
+                    continue
+            for fld in ('body', 'orelse'):
+                sub = getattr(st, fld, None)
+                if isinstance(sub, list) and sub and isinstance(sub[0], ast.stmt):
+                    process(sub)
+            i += 1
+    process(f.body)
+    return f
+
+
 def normalised(src, tree, funcname):
     """(source text, tree) of a module holding only `funcname`, with `x op= e` rewritten and the to_unitless import dropped"""
     f = find_def(tree, funcname)
     _literal_check(src, f)
-    g = ast.fix_missing_locations(_Norm().visit(copy.deepcopy(f)))
+    g = ast.fix_missing_locations(inline_bool_temps(_Norm().visit(copy.deepcopy(f))))
     text = ast.unparse(g) + '\n'
     t2 = ast.parse(text)
     if sorted(_float_values(f)) != sorted(_float_values(t2)):
@@ -95,7 +152,7 @@ def with_err_mult(src, tree, funcname):
     i-th argument); `x += e` rewritten as in `normalised`."""
     f = find_def(tree, funcname)
     _literal_check(src, f)
-    g = _Norm().visit(copy.deepcopy(f))
+    g = inline_bool_temps(_Norm().visit(copy.deepcopy(f)))
     a = g.args
     names = [x.arg for x in a.args]
     if 'err_mult' not in names:
@@ -119,7 +176,7 @@ def truncated(src, tree, funcname, stop, ret, drop_params=()):
     appended.  ExtractError if no statement matches."""
     f = find_def(tree, funcname)
     _literal_check(src, f)
-    g = _Norm().visit(copy.deepcopy(f))
+    g = inline_bool_temps(_Norm().visit(copy.deepcopy(f)))
     if drop_params:
         # parameters that the kept statements do not use (callbacks, **kwargs); defaults are aligned from the right
         a = g.args
@@ -189,6 +246,7 @@ def generate(repo):
 
     # ---- water density (Tanaka 2001) ----------------------------------------------------------------
     src, tree = parse(repo, D_DENS)
+    src, tree = normalised(src, tree, 'water_density')      # every function goes through the same normalisation (see `normalised`)
     parts.append(P.translate_function(src, tree, 'water_density', lean_name='waterDensity', params=['T']))
     parts.append(P.translate_function(src, tree, 'water_density', lean_name='waterDensityU', params=['T'], units_mode=True))
     parts.append(P.translate_function(src, tree, 'water_density', lean_name='waterDensityI', params=['T'], inline_lets=True,
@@ -208,9 +266,10 @@ def generate(repo):
     names = ['gamma', 'D0', 'TS', 'low_t_bound', 'high_t_bound']
     ctext, cenv = P.translate_module_constants(src, tree, names=names + ['dgamma', 'dD0', 'dTS'], prefix='diff_')
     parts.append(ctext)
-    parts.append(P.translate_function(src, tree, 'water_self_diffusion_coefficient', lean_name='waterDiffusivity',
+    dsrc_, dtree_ = normalised(src, tree, 'water_self_diffusion_coefficient')
+    parts.append(P.translate_function(dsrc_, dtree_, 'water_self_diffusion_coefficient', lean_name='waterDiffusivity',
                                       const_env=cenv, params=['T']))
-    parts.append(P.translate_function(src, tree, 'water_self_diffusion_coefficient', lean_name='waterDiffusivityU',
+    parts.append(P.translate_function(dsrc_, dtree_, 'water_self_diffusion_coefficient', lean_name='waterDiffusivityU',
                                       const_env=cenv, params=['T'], units_mode=True))
 
     esrc, etree = with_err_mult(src, tree, 'water_self_diffusion_coefficient')
@@ -283,9 +342,9 @@ def generate(repo):
     hsrc, htree = normalised(src, tree, 'Henry_H_at_T')
     parts.append(P.translate_function(hsrc, htree, 'Henry_H_at_T', lean_name='henryHAtTU', params=['T', 'H', 'Tderiv', 'T0'], units_mode=True,
                                       extra_funcs=TU, doc='`Henry_H_at_T(T, H, Tderiv, T0, units=u)` with an explicit reference temperature'))
-    parts.append(P.translate_function(src, tree, 'Henry_H_at_T', lean_name='henryHAtT', params=['T', 'H', 'Tderiv', 'T0'],
+    parts.append(P.translate_function(hsrc, htree, 'Henry_H_at_T', lean_name='henryHAtT', params=['T', 'H', 'Tderiv', 'T0'],
                                       doc='`Henry_H_at_T(T, H, Tderiv, T0)` with an explicit reference temperature, units=None'))
-    parts.append(P.translate_function(src, tree, 'Henry_H_at_T', lean_name='henryHAtTDefault', params=['T', 'H', 'Tderiv'],
+    parts.append(P.translate_function(hsrc, htree, 'Henry_H_at_T', lean_name='henryHAtTDefault', params=['T', 'H', 'Tderiv'],
                                       doc='`Henry_H_at_T(T, H, Tderiv)`: T0 = 298.15 (units=None)'))
     parts.append(P.translate_function(hsrc, htree, 'Henry_H_at_T', lean_name='henryHAtTDefaultU', params=['T', 'H', 'Tderiv'], units_mode=True,
                                       extra_funcs=TU,
